@@ -118,6 +118,8 @@ class QueryPlanner:
         idx = '.'.join(idx_ar).lower()
         info = self.predictor_info.get(idx)
         if info is not None:
+            # per-call copy: the metadata objects belong to the caller and may be shared between planners / threads
+            info = dict(info)
             info['version'] = version
             info['name'] = name
         return info
